@@ -224,6 +224,10 @@ def bodies(thorough: bool = False) -> Iterator[Any]:
                     yield TunnellingFeatureInfo(ch, seq, ft, data)
                     for rc in ReturnCode:
                         yield TunnellingFeatureResponse(ch, seq, ft, rc, data)
+                # a negative answer may come without a value (some servers omit it when an error occurred)
+                for rc in ReturnCode:
+                    if rc is not ReturnCode.E_SUCCESS:
+                        yield TunnellingFeatureResponse(ch, seq, ft, rc, b"")
     for raw in cemis():
         yield RoutingIndication(raw)
     for ds in (0, 1, 3, 255):
